@@ -38,7 +38,7 @@ def _worker(args):
                 'reason': 'worker: %s: %s\n%s' % (type(e).__name__, e, traceback.format_exc(limit=10)),
                 'paths': 0, 'aborted': 0, 'nontrivial': 0, 'labels': {}, 'violations': {}, 'nviol': {},
                 'feas_queries': 0, 'prop_queries': 0, 'solver_s': 0.0, 'wall_s': 0.0, 'samples': [],
-                'replay_samples': [], 'functions': [], 'max_decisions': 0}
+                'replay_samples': [], 'functions': [], 'max_decisions': 0, 'fallback_samples': [], 'unsupported_paths': 0}
 
 
 def _replay_subprocess(payload, timeout=300):
@@ -189,6 +189,27 @@ def main(pid, tier, jobs=None):
         except Exception as e:
             problems.append('path replay failed: %s' % e)
 
+    # 4b. concolic fallback: paths the engine could not carry contribute the model of their path condition as a
+    # concrete input; the harness is run on it concretely and any failing obligation is a (reproduced) counterexample
+    fb = []
+    for r in results:
+        for vals in r.get('fallback_samples', [])[:6]:
+            fb.append((r['structure'], vals))
+    rng.shuffle(fb)
+    fb = fb[:200]
+    fallback_runs = 0
+    if fb:
+        try:
+            rr = _replay_subprocess([{'property': pid, 'structure': st, 'values': vals} for st, vals in fb], timeout=900)
+            for (st, vals), r in zip(fb, rr):
+                fallback_runs += 1
+                if r['valid'] and not r['error']:
+                    for lb in r['failed']:
+                        first_viol.setdefault(lb, []).insert(0, (st, vals, r['details'].get(lb)))
+                        nviol[lb] = nviol.get(lb, 0) + 1
+        except Exception as e:
+            problems.append('concolic fallback failed: %s' % e)
+
     # 5. counterexamples: replay, then known-findings protocol
     known = load_known(pid)
     out_lines = []
@@ -262,6 +283,7 @@ def main(pid, tier, jobs=None):
             'solver_s': round(solver_s, 2),
             'solver': 'z3 ' + _z3_version(),
             'paths_replayed': paths_replayed,
+            'concolic_fallback_runs': fallback_runs,
             'stub_validation': {'cases': vres['cases'], 'failures': len(vres['failures'])},
             'vacuity': {lb: d['ok'] + d['viol'] + d['reached'] for lb, d in sorted(labels.items())},
             'violated_labels': {lb: nviol[lb] for lb in sorted(nviol)},
